@@ -41,7 +41,9 @@ def main():
         sys.exit(setup())
     if not a.prop:
         ap.error("property id required")
+    import logging
     import pycardano
+    logging.getLogger("PyCardano").setLevel(logging.CRITICAL)   # the builder dumps its whole state on every refusal
     if not os.path.realpath(pycardano.__file__).startswith(os.path.realpath(str(core.REPO)) + "/"):
         print(f"pycardano imported from {pycardano.__file__}, not from {core.REPO}")
         sys.exit(2)
